@@ -99,6 +99,16 @@ struct query {
 	char name2[QUERY_NAME_SIZE];
 };
 
+#ifdef IODINE_VERIF
+/* Verification hook, compiled in only with -DIODINE_VERIF (never in a normal
+   build): tells a test harness which part of a decode buffer holds the result
+   of this call, so that it can poison the rest. */
+void iodine_verif_tail(void *buf, long used, long cap);
+#define VERIF_TAIL(buf, used, cap) iodine_verif_tail((buf), (long)(used), (long)(cap))
+#else
+#define VERIF_TAIL(buf, used, cap) do { } while (0)
+#endif
+
 enum connection {
 	CONN_RAW_UDP = 0,
 	CONN_DNS_NULL,
